@@ -117,7 +117,7 @@ Section Inv.
   Lemma bn_protect f t s l : benign (protect f t s l).
   Proof. induction f as [|f IH]; cbn [protect]; bn. destruct (veqb _ _); [bn|exact IH]. Qed.
   Lemma bn_assign_guard t s : benign (assign_guard t s). Proof. unfold assign_guard; bn. Qed.
-  Lemma bn_copy_guard t d s : benign (copy_guard t d s). Proof. unfold copy_guard; bn. apply bn_assign_guard. Qed.
+  Lemma bn_copy_guard t d s : benign (copy_guard t d s). Proof. unfold copy_guard; bn. Qed.
   Lemma bn_retire t : benign (retire t). Proof. unfold retire; bn. Qed.
   Lemma bn_free_guards t gs : forall fr, benign (free_guards t gs fr).
   Proof. induction gs as [|s r IH]; intros fr; cbn [free_guards]; bn. apply IH. Qed.
@@ -147,13 +147,13 @@ Section Inv.
   Lemma bn_insert_loop sf t g0 g1 g2 hd k : forall f own, benign (insert_loop f sf t g0 g1 g2 hd k own).
   Proof.
     induction f as [|f IH]; intros own; cbn [insert_loop]; [bn|].
-    apply benign_bind; [apply bn_search|]. intros [[[|] p]|]; try bn.
+    apply benign_bind; [apply bn_search|]. intros [[[|] p]|]; try (solve [bn]).
     apply benign_bind; [apply bn_link_node|]. intros [b n]. cbn [fst snd]. destruct b; [bn|apply IH].
   Qed.
   Lemma bn_erase_loop sf t g0 g1 g2 hd k : forall f, benign (erase_loop f sf t g0 g1 g2 hd k).
   Proof.
     induction f as [|f IH]; cbn [erase_loop]; [bn|].
-    apply benign_bind; [apply bn_search|]. intros [[[|] p]|]; try bn.
+    apply benign_bind; [apply bn_search|]. intros [[[|] p]|]; try (solve [bn]).
     apply benign_bind; [apply bn_unlink_node|]. intros [|]; [bn|apply IH].
   Qed.
 
